@@ -203,6 +203,16 @@ class C02(Base):
                       "a %s <rm name='a'>gone</rm> %s\n\nb\n" % (long, long),
                       "%s\n<tl to='%s'>\n%s\n</tl>\n%s" % (long, gen.READY_T, long, long)):
                 yield self.mk(d, "<", ">", proto.DEFAULT_CFG, "long-lines")
+        # tags that span lines (the oracle is the byte-level Lean predicate, so it does not care about lines)
+        for i in range(quick(tier, 500, 10000)):
+            ds, de = gen.SAFE_DELIMS[i % len(gen.SAFE_DELIMS)] if i % 3 == 0 else ("<", ">")
+            if i % 2 == 0:
+                g = gen.DocGen(rng, depth=rng.choice([1, 2, 3]), p_unwrap=0.5, p_ready=0.7, p_skip=0.15, max_items=3)
+                items = g.doc()
+            else:
+                items = gen.g_ast(rng, depth=rng.choice([1, 2, 3]))
+            yield self.mk(gen.render(items, gen.Spelling(ds, de, multiline=True), final_nl=rng.random() < 0.7), ds, de,
+                          proto.DEFAULT_CFG, "multiline-tags")
         # one tag name configured for both kinds of element (told apart by their attributes only)
         same = Cfg(tl="rm", rm="rm")
         al3 = ["<rm to='%s'>" % gen.READY_T, "<rm name='a'>", "<rm name='b'>", "<rm name='a' to='%s'>" % gen.PEND_T, "</rm>", "x", "\n"]
